@@ -64,6 +64,9 @@ def read_everything(m):
             pass
 
 
+CHECK_VALID = [False]
+
+
 def c04(name, text, claim, variant):
     f = PARSER.parse(text, models.File, auto_claim_comments=claim)
     before_text = tree.store_text(f.token_store); before = visible(f.token_store)
@@ -105,6 +108,73 @@ def c04(name, text, claim, variant):
         if r: return r
         v = tree.valid(f)
         return ('after claim/unclaim: ' + v) if v else None
+    if variant == 'claim-bfs':
+        # the claim/unclaim API as a transition system: breadth-first over call sequences (replayed from a fresh parse), states deduplicated by
+        # (order of all tokens incl. zero-width ones, who owns which comment); every reached state must print the original text
+        def calls_of(root):
+            out = []
+            for mi, m in enumerate(docops.tree_models(root)):
+                for call in ('unclaim_leading_comment', 'unclaim_trailing_comment', 'claim_leading_comment', 'claim_trailing_comment'):
+                    if hasattr(m, call): out.append((mi, None, call))
+                for n in dir(type(m)):
+                    if n.endswith('_with_comments'):
+                        for call in ('unclaim_interleaving_comments', 'claim_interleaving_comments'): out.append((mi, n, call))
+            return out
+        def state_of(root):
+            order = tuple(type(t).__name__ + ':' + t.raw_text for t in root.token_store)
+            own = []
+            for mi, m in enumerate(docops.tree_models(root)):
+                for role in ('raw_leading_comment', 'raw_trailing_comment'):
+                    if hasattr(type(m), role) and getattr(m, role) is not None: own.append((mi, role, getattr(m, role).raw_text))
+                for n in dir(type(m)):
+                    if n.endswith('_with_comments'): own.append((mi, n, tuple(x.raw_text for x in getattr(m, n) if isinstance(x, models.BlockComment))))
+            flags = tuple(t.claimed for t in root.token_store if isinstance(t, models.BlockComment))
+            return order, tuple(own), flags
+        def replay(path):
+            g = PARSER.parse(text, models.File, auto_claim_comments=claim)
+            for mi, n, call in path:
+                ms = docops.tree_models(g)
+                if mi >= len(ms): return None
+                m = ms[mi]
+                try: (getattr(getattr(m, n), call) if n else getattr(m, call))()
+                except ValueError: pass
+                except AttributeError: return None
+            return g
+        if ';' not in text: return None
+        seen = {state_of(f)}; frontier = [()]; explored = 0
+        all_calls = calls_of(f)
+        # prune: only models that touch a block comment (ignoring blanks/marks) can be affected by claim calls
+        toks = list(f.token_store); idx = {id(t): i for i, t in enumerate(toks)}
+        skip = ('Newline', 'Whitespace', 'Indent', 'Placeholder', 'Eol', 'DedentMark')
+        def near_comment(m):
+            a, b = idx[id(m.first_token)], idx[id(m.last_token)]
+            i = a - 1
+            while i >= 0 and type(toks[i]).__name__ in skip: i -= 1
+            if i >= 0 and isinstance(toks[i], models.BlockComment): return True
+            i = b + 1
+            while i < len(toks) and type(toks[i]).__name__ in skip: i += 1
+            if i < len(toks) and isinstance(toks[i], models.BlockComment): return True
+            return isinstance(toks[a], models.BlockComment) or isinstance(toks[b], models.BlockComment)
+        ms0 = docops.tree_models(f)
+        all_calls = [c for c in all_calls if near_comment(ms0[c[0]]) or (c[1] is not None and any(isinstance(t, models.BlockComment) for t in ms0[c[0]].tokens))]
+        # only calls on models next to a comment can change anything: keep those whose first application changes the state, plus all unclaims
+        for depth in range(4 if CHECK_VALID[0] else 5):
+            nxt = []
+            for path in frontier:
+                for c in all_calls:
+                    g = replay(path + (c,))
+                    if g is None: continue
+                    explored += 1
+                    if tree.store_text(g.token_store) != before_text: return f'claim sequence {path + (c,)} changed the printed text: {before_text!r} -> {tree.store_text(g.token_store)!r}'
+                    st = state_of(g)
+                    if st not in seen:
+                        seen.add(st); nxt.append(path + (c,))
+                        v = tree.valid(g) if CHECK_VALID[0] else None
+                        if v: return f'CLAIMVALID[{name}] claim sequence {path + (c,)}: tree invalid: {v}'
+                    if explored > (1500 if CHECK_VALID[0] else 4000): return None
+            frontier = nxt
+            if not frontier: break
+        return None
     if variant == 'claim-sequences':
         # meta item trailing / posting leading / interleaving, in the orders an independent reader would try
         rnd = random.Random(hash(name) & 0xffff)
@@ -228,13 +298,19 @@ def run(prop, tier, seed):
         except Exception:
             msg = 'driver error: ' + traceback.format_exc()[-500:]
         rep.case(key, True, dict(doc=key[0], variant=list(key[1:])) if rnd.random() < 0.01 else None)
-        if msg: rep.fail(f'{key[1]}:{re.sub(r"[0-9]+", "N", re.sub(chr(39) + r"[^" + chr(39) + r"]*" + chr(39), "S", msg))[:90]}', msg, dict(prop=prop, key=list(key)))
+        if msg:
+            mk = re.match(r'CLAIMVALID\[([^\]]*)\]', msg)
+            k_ = f'claim-bfs-valid:{mk.group(1)}:{re.sub(r"[0-9]+", "N", msg.split("tree invalid: ")[-1])[:60]}' if mk else f'{key[1]}:{re.sub(r"[0-9]+", "N", re.sub(chr(39) + r"[^" + chr(39) + r"]*" + chr(39), "S", msg))[:90]}'
+            rep.fail(k_, msg, dict(prop=prop, key=list(key)))
     for name, text in docs:
         if prop == 'C01':
             for claim in (True, False): do((name, 'c01', claim), c01, name, text, claim)
+        elif prop in ('C05', 'C14'):
+            CHECK_VALID[0] = True
+            for claim in (True, False): do((name, 'c04', claim, 'claim-bfs'), c04, name, text, claim, 'claim-bfs')
         elif prop == 'C04':
             for claim in (True, False):
-                for variant in ('read', 'eq-hash-copy-print', 'claim', 'unclaim-claim', 'claim-unclaim-interleaved', 'claim-sequences'):
+                for variant in ('read', 'eq-hash-copy-print', 'claim', 'unclaim-claim', 'claim-unclaim-interleaved', 'claim-sequences', 'claim-bfs'):
                     do((name, 'c04', claim, variant), c04, name, text, claim, variant)
         elif prop == 'C11':
             n = len(docops.tree_models(PARSER.parse(text, models.File)))
@@ -252,6 +328,7 @@ def run(prop, tier, seed):
 
 def replay_case(case):
     key = case['key']; name = key[0]; text = dict(corpus.documents())[name]
+    CHECK_VALID[0] = case.get('prop') in ('C05', 'C14')
     fn = {'c01': c01, 'c04': c04, 'c11': c11, 'c20': c20, 'c20-children': c20_children, 'c20-ownership': c20_ownership}[key[1]]
     return fn(name, text, *key[2:])
 
